@@ -136,3 +136,44 @@ func VerifHarness_C15_O2() {
 	verifAssert("same-wire-form-after-reload", w1.Body.SelfParentIndex == w2.Body.SelfParentIndex && w1.Body.OtherParentIndex == w2.Body.OtherParentIndex && w1.Body.CreatorID == w2.Body.CreatorID && w1.Body.OtherParentCreatorID == w2.Body.OtherParentCreatorID && w1.Body.Index == w2.Body.Index)
 	verifReach("end")
 }
+
+// C15/O3 — a frame's hash does not depend on who computed it or on what was
+// done with it: sorting its events for a reset (SortedFrameEvents) must not
+// reorder or alter the frame itself.  Frame with 1..3 events in a slice with
+// spare capacity, symbolic Lamport timestamps, 0..2 root events.
+func VerifHarness_C15_O3() {
+	vn := verifNewNet(2, 100)
+	ne := 1 + verifChoice("events", 3)
+	nr := verifChoice("rootEvents", 3)
+	evs := make([]*FrameEvent, 0, 16)
+	lts := make([]int, ne)
+	for i := 0; i < ne; i++ {
+		ev := vn.mkEvent(i%2, "", "", i, [][]byte{[]byte{byte(i)}})
+		lts[i] = verifNondetInt(fmt.Sprintf("lt%d", i))
+		evs = append(evs, &FrameEvent{Core: ev, Round: 1, LamportTimestamp: lts[i]})
+	}
+	root := NewRoot()
+	for i := 0; i < nr; i++ {
+		ev := vn.mkEvent(1, "", "", 10+i, nil)
+		root.Insert(&FrameEvent{Core: ev, Round: 0, LamportTimestamp: verifNondetInt(fmt.Sprintf("rootLT%d", i))})
+	}
+	frame := &Frame{Round: 2, Peers: vn.set.Peers, Roots: map[string]*Root{vn.hexes[1]: root}, Events: evs, Timestamp: 5}
+	before := make([]*FrameEvent, ne)
+	copy(before, frame.Events)
+	h1, _ := frame.Hash()
+	sorted := frame.SortedFrameEvents()
+	verifAssert("sorted-view-has-all-events", len(sorted) == ne+nr)
+	for i := 0; i+1 < len(sorted); i++ {
+		verifAssert(fmt.Sprintf("sorted-view-ascending-%d", i), sorted[i].LamportTimestamp <= sorted[i+1].LamportTimestamp)
+	}
+	same := len(frame.Events) == ne
+	for i := 0; i < ne && same; i++ {
+		if frame.Events[i] != before[i] {
+			same = false
+		}
+	}
+	verifAssert("sorting-does-not-reorder-the-frame-itself", same)
+	h2, _ := frame.Hash()
+	verifAssert("frame-hash-unchanged-by-sorting", string(h1) == string(h2))
+	verifReach("end")
+}
